@@ -107,6 +107,13 @@ _MOD = None
 
 def _init_worker(pid):
     global _MOD
+    # one private cache directory per worker process: the library's pickle caches are not safe against a concurrent
+    # writer in another process (a reader then hits EOFError), which is not what the checks are about
+    base = os.environ.get('VERIF_SCRATCH')
+    if base:
+        d = os.path.join(base, 'xdg_%d' % os.getpid())
+        os.makedirs(d, exist_ok=True)
+        os.environ['XDG_CACHE_HOME'] = d
     _MOD = importlib.import_module('props.' + pid)
 
 
@@ -160,6 +167,9 @@ def evaluate_cases(mod, cases, pool):
         per_case[o].append(m)
     out = []
     for case, r, ms in zip(cases, results, per_case):
+        if 'harness_error' in r and str(r['harness_error']).startswith('case-timeout'):
+            out.append((case, None, {'skip': 'case-timeout', 'tags': []}))
+            continue
         if 'harness_error' in r:
             out.append((case, {'clause': 'harness-error', 'detail': r['harness_error'], 'trace': r.get('trace'),
                                'no_input': True}, r))
